@@ -90,26 +90,29 @@ theorem request_spec {s s' : S} {op pid : Nat} {k : Kind} {dup : Bool} {body : N
             · simp only [Option.some.injEq] at h; rename_i hp; exact ⟨Or.inr hp, h.symm⟩
             · simp at h
 
-theorem account_spec {s s' : S} {pid : Nat} (h : account s pid = some s') :
+theorem account_spec {s s' : S} {op pid : Nat} (h : account s op pid = some s') :
     (s.connected = false ∧ s' = s) ∨
-    (s.connected = true ∧ pid ∈ s.holders ∧ s' = { s with wire := addWire s.wire pid }) ∨
-    (s.connected = true ∧ pid ∉ s.holders ∧ s.quota ≠ 0 ∧
-      s' = { s with wire := addWire s.wire pid, holders := pid :: s.holders, quota := s.quota - 1 }) := by
+    (s.connected = true ∧ s.lastPub < op ∧ pid ∈ s.holders ∧ s' = { s with wire := addWire s.wire pid, lastPub := op }) ∨
+    (s.connected = true ∧ s.lastPub < op ∧ pid ∉ s.holders ∧ s.quota ≠ 0 ∧
+      s' = { s with wire := addWire s.wire pid, holders := pid :: s.holders, quota := s.quota - 1, lastPub := op }) := by
   unfold account at h
   split at h
   · rename_i hc; simp at hc; simp at h; exact Or.inl ⟨hc, h.symm⟩
   · rename_i hc; simp at hc
     split at h
-    · rename_i hh; simp at h; exact Or.inr (Or.inl ⟨hc, hh, h.symm⟩)
-    · rename_i hh
+    · simp at h
+    · rename_i hl
+      have hl' : s.lastPub < op := by omega
       split at h
-      · simp at h
-      · rename_i hq; simp at h; exact Or.inr (Or.inr ⟨hc, hh, hq, h.symm⟩)
-
+      · rename_i hh; simp at h; exact Or.inr (Or.inl ⟨hc, hl', hh, h.symm⟩)
+      · rename_i hh
+        split at h
+        · simp at h
+        · rename_i hq; simp at h; exact Or.inr (Or.inr ⟨hc, hl', hh, hq, h.symm⟩)
 
 theorem stepPk_spec {s s' : S} {p : Out} (h : stepPk s p = some s') :
     (∃ op q pid dup body k, p = .publish op q pid dup body ∧ ((q = 1 ∧ k = Kind.pub1) ∨ (q = 2 ∧ k = Kind.pub2)) ∧
-        ∃ s1, request s op pid k dup body = some s1 ∧ account s1 pid = some s') ∨
+        ∃ s1, request s op pid k dup body = some s1 ∧ account s1 op pid = some s') ∨
     (∃ op pid body, p = .subscribe op pid body ∧ request s op pid .sub (s.slot pid).isSome body = some s') ∨
     (∃ op pid body, p = .unsubscribe op pid body ∧ request s op pid .unsub (s.slot pid).isSome body = some s') ∨
     (∃ pid sl, p = .pubrel pid ∧ s.slot pid = some sl ∧ sl.kind = .pub2 ∧ (sl.phase = .relIdle ∨ sl.phase = .relWaiting) ∧
@@ -150,9 +153,9 @@ theorem stepPk_spec {s s' : S} {p : Out} (h : stepPk s p = some s') :
 
 /-! ### Ownership of identifiers -/
 
-theorem account_frame {s s' : S} {pid : Nat} (h : account s pid = some s') :
+theorem account_frame {s s' : S} {op pid : Nat} (h : account s op pid = some s') :
     s'.slot = s.slot ∧ s'.pidOf = s.pidOf ∧ s'.isDone = s.isDone ∧ s'.known = s.known ∧ s'.bodyOf = s.bodyOf ∧ s'.writing = s.writing := by
-  rcases account_spec h with ⟨_, rfl⟩ | ⟨_, _, rfl⟩ | ⟨_, _, _, rfl⟩ <;> simp
+  rcases account_spec h with ⟨_, rfl⟩ | ⟨_, _, _, rfl⟩ | ⟨_, _, _, _, rfl⟩ <;> simp
 
 def owner (s : S) (p : Nat) : Option Nat := (s.slot p).map (·.op)
 
